@@ -334,7 +334,19 @@ def fence_table(ctx, entries, timeout=1500):
 # ---------------------------------------------------------------------------------------------------------------- run
 
 
+def _flavor_parts(ctx):
+    # the qsbr and bp flavors (their own specifications and drivers)
+    from props import qsbr_parts, bp_parts
+    ctx.extra.setdefault("flavors_covered", []).extend(["mb", "memb+sys_membarrier", "memb without sys_membarrier"])
+    if len(ctx.violations) < conc.MAXV:
+        qsbr_parts.run_c02(ctx); ctx.extra["flavors_covered"].append("qsbr")
+    if len(ctx.violations) < conc.MAXV:
+        bp_parts.run_c02(ctx); ctx.extra["flavors_covered"].append("bp")
+
+
 def run(ctx):
+    if COV:         # coverage pass: the flavor parts first (a forced schedule that a coverage build cannot follow must not hide them)
+        _flavor_parts(ctx)
     q = ctx.quick()
     n, sim = (40, 12) if q else (400, 100)
     mb = gc("mb", False); ms = gc("memb", True); mn = gc("memb", False)
@@ -381,13 +393,8 @@ def run(ctx):
     else:
         fence_table(ctx, FENCES)
     finish(ctx)
-    # the qsbr and bp flavors (their own specifications and drivers)
-    from props import qsbr_parts, bp_parts
-    ctx.extra.setdefault("flavors_covered", []).extend(["mb", "memb+sys_membarrier", "memb without sys_membarrier"])
-    if len(ctx.violations) < conc.MAXV:
-        qsbr_parts.run_c02(ctx); ctx.extra["flavors_covered"].append("qsbr")
-    if len(ctx.violations) < conc.MAXV:
-        bp_parts.run_c02(ctx); ctx.extra["flavors_covered"].append("bp")
+    if not COV:
+        _flavor_parts(ctx)
 
 
 def replay(ctx, path):
